@@ -41,7 +41,7 @@ def check_linear(res, cfg, facts, in_specs, impl, ref, **kw):
     return core.run_paths(res, lambda: _check_linear_path(res, cfg, facts, in_specs, impl, ref, **kw))
 
 
-PIECEWISE_SCALES = (Fraction(1), Fraction(1, 2 ** 30), Fraction(1, 2 ** 60))
+PIECEWISE_SCALES = (Fraction(1, 2 ** 60), Fraction(1, 2 ** 30), Fraction(1))     # smallest first: fixed absolute thresholds show up there at once
 
 
 def _def_closure(p, seen):
